@@ -18,6 +18,7 @@ from sa.pyfront import Program
 from sa.symex import Interp
 
 RULES = {
+    "R-C08-o": "every buffer a kernel fills is allocated inside the same call - not a module-level workspace, not one handed out by a helper (shared by concurrent callers: the merge loops run without the GIL); cdef helpers that touch array elements are outside the analysis and reported as such",
     "R-C08-j": "multi-way union: besides the empty case and the merged prefix, a shortcut may return the concatenation only when it is shown STRICTLY increasing (x[:-1] < x[1:]); a non-strict test lets a value shared by the end of one array and the start of the next through twice",
     "R-C08-a": "kernel decision table: per branch (left<right, left>right, equal) the emitted side and advanced cursors, the tail copies, and the result for an empty operand / non-overlapping ranges equal the table the set operation requires",
     "R-C08-b": "cache coherence: every cursor advance is followed, before the next comparison, by the exhaustion test and a reload of that cursor's cached value",
@@ -113,14 +114,21 @@ def check_kernel(rep, op, cyf):
                 j = rest.index(("RELOAD", side)) if has_reload else len(rest)
                 between = rest[:j]
                 guarded = ("BREAKIF", side) in between
-                stale = ("EMIT", side) in between or ("ADV", side) in between
-                ok = (has_reload and guarded and not stale) or ends_break
+                # between the advance and the reload the cached value is still the element that was compared (emitting IT
+                # is fine); what is wrong there is reading array[ptr] directly (the NEXT element, or one past the end) or
+                # advancing again; and after the reload the cached value is the next element: emitting it is wrong too
+                between_ev = ev[i + 1:i + 1 + j]
+                after_ev = ev[i + 1 + j + 1:] if has_reload else []
+                stale = any(e[0] == "EMIT" and e[1] == side and (len(e) < 4 or e[3] == "load") for e in between_ev) or ("ADV", side) in between
+                late = any(e[0] == "EMIT" and e[1] == side for e in after_ev)
+                ok = (has_reload and guarded and not stale and not late) or ends_break
                 n += 1
                 rep.check(ok, "R-C08-b", "%s@%d" % (where, ev[i][2]), "%s advance of %s cursor" % (cons, {"L": "left", "R": "right"}[side]),
                           "ptr += 1; if ptr >= len: break; value = array[ptr]",
                           "after advancing the %s cursor %s" % ({"L": "left", "R": "right"}[side],
                                                               "its cached value is not reloaded before the next comparison" if not has_reload else
-                                                              "there is no exhaustion test before the reload" if not guarded else "the stale cached value is used again"),
+                                                              "there is no exhaustion test before the reload" if not guarded else
+                                                              "the element AFTER the one compared is emitted (the emission follows the reload)" if late else "the next element is read / the cursor advanced again before the exhaustion test"),
                           witness={"inputs": "left=[1,2], right=[2]" })
         nem, ninc = sum(1 for e in seq if e[0] == "EMIT"), sum(1 for e in seq if e[0] == "INC_RESULT")
         order_ok = True
@@ -634,6 +642,23 @@ def check_callers(rep, prog):
     return n
 
 
+def analyse_op(rep, prog, op):
+    """The wrapper -> kernel delegation and the kernel's decision tables for ONE operation (imported by C01: many-to-one
+    mappings merge their row sets through `union`)."""
+    tree = cyfront.load()
+    by_name = {f.name: f for f in cyfront.functions(tree)}
+    wk = wrapper_kernels(prog)
+    ks, I, fi = wk[op]
+    if len(ks) != 1:
+        rep.undecided("R-C08-d", fi.fq, "%s delegates to one kernel" % op, "%d kernel calls in the wrapper" % len(ks))
+        return 0
+    cyf = by_name.get(ks[0]["resolved"][0].qualname)
+    if cyf is None:
+        rep.undecided("R-C08-a", fi.fq, "kernel of %s" % op, "not found in the typed tree")
+        return 0
+    return check_kernel(rep, op, cyf)
+
+
 def main(tier):
     rep = core.Report("C08", level="other", rules=RULES, tier=tier,
                       declined="full functional correctness of the merge loops as a machine-checked sequence proof: the checks decide every decision table the textbook argument uses, the argument itself is the trusted step")
@@ -669,6 +694,23 @@ def main(tier):
     check_value_arithmetic(rep, funcs)
     rep.floor("R-C08-n", 6, check_general_views(rep, funcs))
     check_callers(rep, prog)
+    # R-C08-o: the result a kernel returns is its own: the buffer it fills is allocated inside the call (sa/cystate.py, the
+    # analysis behind R-C16-f / R-C17-e).  A module-level workspace - also one handed out by a cdef helper - is filled by
+    # every caller; the merge loops run without the GIL, so two concurrent calls interleave their stores
+    from sa import cystate
+    ko = 0
+    for status, where, cons, detail in cystate.analyse(tree):
+        ko += 1
+        rep.add("R-C08-o", where, cons, status, detail, True,
+                {"history": "two threads call intersection() at the same time (the cubes' pool does): each result has the right length and some of the other call's elements"} if status == "VIOLATED" else None)
+    rep.floor("R-C08-o", 4, ko)
+    # cdef helpers are outside the decision-table schema: listed, and UNDECIDED when one touches array memory
+    for name, node in cyfront.cfunctions(tree):
+        touches = [x for x in walk(node.body) if tname(x) in ("MemoryViewIndexNode", "MemoryViewSliceNode", "BufferIndexNode") or (tname(x) == "SimpleCallNode" and tname(x.function) == "NameNode" and x.function.name in ("memcpy", "memmove"))]
+        if touches:
+            rep.undecided("R-C08-o", "set_operations:%s@%d" % (name, touches[0].pos[1]), "cdef helper %s reads or writes array elements" % name, "cdef functions are not part of the decision-table analysis")
+        else:
+            rep.proved("R-C08-o", "set_operations:%s" % name, "cdef helper %s touches no array element" % name, "")
     rep.analysed["kernels"] = [f.name for f in funcs]
     return rep.finish()
 
